@@ -655,6 +655,13 @@ def rule_asm(ctx, cfg, prog, outdir, rule='R-ASM'):
             elif not (0 <= acc.off and acc.off + acc.width <= ext):
                 bad.append('%s accesses bytes [%d,%d) of argument %d, an object of %d bytes' % (acc.text, acc.off, acc.off + acc.width, k, ext))
         ctx.ob(rule, not bad, 'asm|footprint|' + name, name, '%s: %s' % (name, '; '.join(bad[:3])), cfg=cfg)
+        for note in getattr(R, 'notes', []):
+            al = (prog.records.get('embedded_pairing::core::BigInt<384>') or {}).get('align')
+            note2 = note + (' whose alignment requirement in this configuration is %s (every access the callee makes on ARMv6-M is a 32-bit access: there '
+                            'is no 64-bit load or store instruction, so no access is misaligned at the machine level; formally the pointer is '
+                            'under-aligned for its C++ type when 8 is required)' % al if al else '')
+            if note2 not in ctx.notes:
+                ctx.notes.append(note2)
     return n
 
 
